@@ -38,6 +38,9 @@ type gOpts struct {
 	// Concurrency adds goroutines, channels, mutexes and WaitGroups (C12); the
 	// results never depend on scheduling.
 	Concurrency bool
+	// ShadowInit adds declarations whose initializer reads the variable they shadow
+	// (shadowinit_test.go; C02 streams only).
+	ShadowInit bool
 }
 
 type gProgram struct {
@@ -1170,6 +1173,10 @@ func (g *pg) stmt(n int) string {
 	case 29:
 		// closures created in (nested blocks of) a loop body, called after their
 		// iteration has ended (loopclosure_test.go)
+		if g.o.ShadowInit && r.Intn(2) == 0 {
+			return g.shadowInitStmt(n)
+		}
+
 		if g.o.Concurrency && g.loopDep == 0 && g.inFunc == "" && r.Intn(2) == 0 {
 			// (only with the option: the streams of the other checks do not change)
 			return g.concurrencyStmt(n)
